@@ -406,6 +406,7 @@ class Control:
         self.stop_reason = None
         self.fail = collections.OrderedDict()   # signature -> dict(count, witnesses=[(gen, line, cls, obs)], unconfirmed)
         self.stats = collections.Counter()
+        self.inflight = collections.Counter()
 
     def left(self):
         return self.budget - (time.time() - self.t0)
@@ -415,10 +416,18 @@ class Control:
             self.stop_reason = "wall-clock budget of %d s used up" % self.budget
         return self.stop_reason is not None
 
-    def wants(self, sig):
+    def wants(self, sig, reserve=False):
+        """does the signature still need a confirmed witness?  reserve: count the confirmation about to start"""
         with self.lock:
             f = self.fail.get(sig)
-            return f is None or len(f["witnesses"]) < WITNESSES
+            have = (len(f["witnesses"]) if f else 0) + self.inflight[sig]
+            if have < WITNESSES and reserve:
+                self.inflight[sig] += 1
+            return have < WITNESSES
+
+    def release(self, sig):
+        with self.lock:
+            self.inflight[sig] -= 1
 
     def record(self, gen, line, cls, obs, confirmed):
         sig = signature(cls, obs)
@@ -437,20 +446,28 @@ class Control:
                     self.stop_reason = "three distinct failure signatures confirmed"
                 elif nconf >= 5:
                     self.stop_reason = "five failures confirmed"
-                elif total >= 60:
-                    self.stop_reason = "sixty failing cases: the failure is systematic"
+                elif total >= 40:
+                    self.stop_reason = "forty failing cases: the failure is systematic"
 
     def suspect(self, gen, line, cls, obs):
         """a case whose child died or stalled in a chunk: confirm it alone while its signature still needs witnesses"""
         sig = signature(cls, obs)
-        if not self.wants(sig) or self.left() < -120:
+        if self.left() < -120 or not self.wants(sig, reserve=True):
             self.record(gen, line, cls, obs, confirmed=False)
             return cls, obs + " (not re-run: the signature has its witnesses)"
-        with self.confirm_slots:
-            self.stats["confirm_runs"] += 1
-            c2, o2 = run_single(line, self.cwd, timeout=CONFIRM_STALL_S)
+        try:
+            with self.confirm_slots:
+                self.stats["confirm_runs"] += 1
+                c2, o2 = run_single(line, self.cwd, timeout=CONFIRM_STALL_S)
+        finally:
+            self.release(sig)
         if c2 in BAD:
             self.record(gen, line, c2, o2, confirmed=True)
+            sig2 = signature(c2, o2)
+            if sig2 != sig:            # alone it fails in another way (a hang that ends in memory exhaustion, say)
+                self.record(gen, line, cls, obs, confirmed=False)
+                with self.lock:
+                    self.fail[sig]["seen_alone_as"] = sig2
             return c2, o2
         self.stats["suspects_cleared"] += 1
         return c2, o2
@@ -1923,10 +1940,14 @@ def run_blowup(ctl, cases, outcomes, timing):
         dt = time.time() - t0
         if cls == "timeout":
             o = "no answer within %ds [%s]" % (BLOWUP_TIMEOUT, fam)
-            if ctl.wants(signature(cls, o)):
-                with ctl.confirm_slots:
-                    ctl.stats["confirm_runs"] += 1
-                    cls, o = run_single(line, ctl.cwd, timeout=3 * BLOWUP_TIMEOUT)
+            sig = signature(cls, o)
+            if ctl.wants(sig, reserve=True):
+                try:
+                    with ctl.confirm_slots:
+                        ctl.stats["confirm_runs"] += 1
+                        cls, o = run_single(line, ctl.cwd, timeout=3 * BLOWUP_TIMEOUT)
+                finally:
+                    ctl.release(sig)
                 if cls == "timeout":
                     o = "no answer within %ds and again within %ds [%s]" % (BLOWUP_TIMEOUT, 3 * BLOWUP_TIMEOUT, fam)
                     ctl.record(gen, line, cls, o, confirmed=True)
@@ -2023,18 +2044,22 @@ def texts_of(line):
 
 def minimise(line, sig, cwd, budget_s=120, max_runs=600):
     t0 = time.time()
-    hang = sig.startswith("timeout")
+    hang = sig.startswith("timeout") or "out of memory" in sig
     if hang:
         budget_s = min(budget_s, 75)      # every probe that still hangs costs its time limit
     runs = [0]
-    tmo = 3 if hang else 20              # a probe that gives no answer within 3 s counts as "still hangs" ...
 
     def bad(l):
         if time.time() - t0 > budget_s or runs[0] >= max_runs:
             return False
         runs[0] += 1
-        c, o = run_single(l, cwd, timeout=tmo)
-        return c in BAD and (sig in signatures(c, o) or (c == "timeout" and sig.startswith("timeout")))
+        if hang:
+            # a probe that gives no answer within 3 s or outgrows 768 MB counts as "still hangs"; the result
+            # of the minimisation is checked with the real bounds below
+            out, why, err = run_child([l], cwd, stall=3, total=3, as_bytes=768 << 20)
+            return why is not None
+        c, o = run_single(l, cwd, timeout=20)
+        return c in BAD and sig in signatures(c, o)
 
     case = decode_case(line)
 
@@ -2132,7 +2157,7 @@ def minimise(line, sig, cwd, budget_s=120, max_runs=600):
         shrink_text(get, put)
     out = encode_case(case)
     c, o = run_single(out, cwd, timeout=STALL_S if hang else 20)      # ... the result is checked with the real bound
-    if c in BAD and (sig in signatures(c, o) or (c == "timeout" and sig.startswith("timeout"))):
+    if c in BAD and (sig in signatures(c, o) or (hang and c in ("timeout", "fatal"))):
         o = ([x for x in o.split(" ALSO ") if signature(c, x) == sig] + [o])[0]
         return out, c, o, runs[0]
     return line, None, None, runs[0]
@@ -2282,6 +2307,8 @@ def run(res, tier, seed, proof):
                 gen, line, cls, o = min(f["witnesses"], key=lambda w: len(w[1]))
                 left = 240 - (time.time() - tmin)
                 report(res, gen, line, cls, o, cwd, min(120, left) if i < 3 else 0, f["count"], True)
+            elif f.get("seen_alone_as") in ctl.fail and ctl.fail[f["seen_alone_as"]]["witnesses"]:
+                continue               # the same cases, run alone, are reported under that signature
             else:
                 res.violation("%d case(s) failed with signature %s but none was confirmed in a run of its own (budget)" % (f["count"], sig),
                               dict(kind="crash", signature=sig, confirmed=False), no_input=False)
@@ -2300,7 +2327,9 @@ def run(res, tier, seed, proof):
         exhaustive=False, outcomes=dict(outcomes), cases_per_generator=dict(per_gen),
         budget=dict(seconds=ctl.budget, cut_short=cut is not None, reason=cut, cases_not_run=stats.get("not_run", 0),
                     note="the run was CUT SHORT: not every planned case was executed" if cut else "the whole plan was executed"),
-        failing_signatures={s: dict(cases=f["count"], confirmed_witnesses=len(f["witnesses"])) for s, f in ctl.fail.items()},
+        failing_signatures={s: dict(cases=f["count"], confirmed_witnesses=len(f["witnesses"]),
+                                    **({"run_alone_it_shows_as": f["seen_alone_as"]} if f.get("seen_alone_as") else {}))
+                            for s, f in ctl.fail.items()},
         runner=stats, table_fields_exercised=table_fields,
         blowup_seconds=dict(bound=BLOWUP_TIMEOUT, slowest_case=max(timing.values()) if timing else 0, per_case=timing),
         distribution={k: v for k, v in sorted(dist.items()) if not k.startswith("table-field:")},
